@@ -127,7 +127,9 @@ func genHist(r *rand.Rand, id string, tier string, extremes bool) string {
 		maxOps = 60
 	}
 	nops := 1 + r.Intn(maxOps)
-	live := BuildStack(st) // only used to aim indices at the current length
+	liveLit := st
+	liveLit.Cfg.Mtx = false     // the generator must not depend on the lock discipline of the code under test
+	live := BuildStack(liveLit) // only used to aim indices at the current length
 	n := n0
 	neg, fwd := c.Opt&fNeg != 0, c.Opt&fFwd != 0
 	var ops []string
